@@ -51,8 +51,10 @@ func (y yesCloser) Allow(context.Context, time.Time) bool       { return true }
 
 type notifRec struct{ log []string }
 
-func (n *notifRec) Opened(context.Context, time.Time) { n.log = append(n.log, "O") }
-func (n *notifRec) Closed(context.Context, time.Time) { n.log = append(n.log, "C") }
+// a collector is arbitrary user code: being called is a scheduling point, so the delivery of a notification can be
+// delayed relative to other threads' transitions
+func (n *notifRec) Opened(context.Context, time.Time) { vsched.Yield("deliver-opened"); n.log = append(n.log, "O") }
+func (n *notifRec) Closed(context.Context, time.Time) { vsched.Yield("deliver-closed"); n.log = append(n.log, "C") }
 
 func (transScenario) Build(cfg string) ([]func(), func(*vsched.Sched) []string) {
 	rec := &notifRec{}
